@@ -77,7 +77,7 @@ func gContent(f *FileSpec, unreadable bool) (content string, marker int, defline
 		return "CNoDef", 0, 1
 	}
 	marker = c.Marker
-	defline = c.Pad + 1
+	defline = defLine(c)
 	if unreadable {
 		return "CUnreadable", marker, defline
 	}
@@ -88,7 +88,7 @@ func gContent(f *FileSpec, unreadable bool) (content string, marker int, defline
 		}
 		return lib.GList(es, "str")
 	}
-	switch c.Class {
+	switch effClass(c) {
 	case "good":
 		return fmt.Sprintf("(CGood %s %s)", gs(c.Declared), strs(c.Refs)), marker, defline
 	case "anon":
@@ -98,11 +98,7 @@ func gContent(f *FileSpec, unreadable bool) (content string, marker int, defline
 	case "malformed":
 		return fmt.Sprintf("(CMalformed %s)", lib.GN(uint64(malformedLine(c)))), marker, defline
 	case "nodef":
-		switch c.Tmpl % nNoDef {
-		case 0, 5:
-			defline = 1 // no token at all
-		}
-		return "CNoDef", marker, defline
+		return "CNoDef", marker, defline // (line 1 when the file holds no token at all)
 	}
 	panic("unknown content class " + c.Class)
 }
@@ -221,7 +217,59 @@ func gOut(cs *Case, mm []int, o *Outcome) string {
 	return "OFuel"
 }
 
-func gallinaCase(cs *Case, cr *CaseResult, mode000 bool) string {
+// gallinaCase: generation gen of a case (0 = the case itself) as a ccase; the generations before it (world and
+// operations) go into cc_prev: the model runs the whole session and its answers for this generation are compared
+func gallinaCase(top *Case, topr *CaseResult, gen int, mode000 bool) string {
+	var prev []string
+	for j := 0; j < gen; j++ {
+		pc, pr := top, topr
+		if j > 0 {
+			pc, pr = &top.Then[j-1], &topr.Then[j-1]
+		}
+		w, ops, _, _ := gallinaParts(pc, pr, mode000)
+		prev = append(prev, lib.GPair(w, ops))
+	}
+	cs, cr := top, topr
+	if gen > 0 {
+		cs, cr = &top.Then[gen-1], &topr.Then[gen-1]
+	}
+	w, ops, outs, texts := gallinaParts(cs, cr, mode000)
+	return fmt.Sprintf("{| cc_prev := %s;\n     cc_world := %s;\n     cc_ops := %s;\n     cc_outs := %s;\n     cc_texts := %s |}",
+		lib.GList(prev, "world * list op"), w, ops, outs, texts)
+}
+
+// textsOf: the text of the files that a reported error of this generation is located in (at most 3), with the
+// position of the parser's reader when it gave up (malformed files): the model of the line count
+// (Model/FileLoaderText.v) is evaluated on them and must give the line numbers the world states for the file
+func textsOf(cs *Case, cr *CaseResult, mm []int) string {
+	var ts []string
+	seen := map[string]bool{}
+	for i := range cr.Outcomes {
+		o := &cr.Outcomes[i]
+		if o.Kind != "reported" || o.LocFile == "" || seen[o.LocFile] || len(ts) >= 3 {
+			continue
+		}
+		seen[o.LocFile] = true
+		k, rel, ok := fileRef(cs, mm, o.LocFile)
+		if !ok {
+			continue
+		}
+		for fi := range cs.Mods[mm[k]].Files {
+			f := &cs.Mods[mm[k]].Files[fi]
+			if f.Rel != rel || f.Content == nil || f.Kind != "file" {
+				continue
+			}
+			pos := 0
+			if effClass(f.Content) == "malformed" {
+				pos = errPos(f.Content)
+			}
+			ts = append(ts, fmt.Sprintf("(%s, %s, %s, %s)", lib.GNat(k), gs(rel), gs(render(f.Content)), lib.GNat(pos)))
+		}
+	}
+	return lib.GList(ts, "nat * str * str * nat")
+}
+
+func gallinaParts(cs *Case, cr *CaseResult, mode000 bool) (gworld, gops, gouts, gtexts string) {
 	mm := modelMods(cs, cr)
 	pos := map[int]int{} // cs.Mods index -> model index
 	var mods []string
@@ -278,6 +326,6 @@ func gallinaCase(cs *Case, cr *CaseResult, mode000 bool) string {
 		ops = append(ops, g)
 		outs = append(outs, lib.GPair(gOut(cs, mm, o), lib.GList(reads, "nat * str")))
 	}
-	return fmt.Sprintf("{| cc_world := {| w_top := %s; w_mods := %s; w_shadow := %s |};\n     cc_ops := %s;\n     cc_outs := %s |}",
-		top, lib.GList(mods, "modl"), lib.GList(sh, "str * str"), lib.GList(ops, "op"), lib.GList(outs, "out * list (nat * str)"))
+	return fmt.Sprintf("{| w_top := %s; w_mods := %s; w_shadow := %s |}", top, lib.GList(mods, "modl"), lib.GList(sh, "str * str")),
+		lib.GList(ops, "op"), lib.GList(outs, "out * list (nat * str)"), textsOf(cs, cr, mm)
 }
